@@ -35,7 +35,7 @@ Proof.
     - destruct (Nat.ltb (length (h_client h)) client_cap); intros H; inversion H; subst; cbn; repeat split; auto.
       intros x Hx. apply in_app_or in Hx as [Hx|[<-|[]]]; auto.
     - destruct (m_kind m); intros H; inversion H; subst; repeat split; auto. }
-  unfold route. destruct (m_kind m) as [|w valid|any ds|any tc| |known|unsub|].
+  unfold route. destruct (m_kind m) as [|w valid|any ds|any tc|owner|known|unsub|].
   - destruct (ti_sys ti); [apply Cli|]. intros H; inversion H; subst. repeat split; auto.
   - destruct (negb valid); [intros H; inversion H; subst; repeat split; auto|].
     destruct w as [ | | | [ | ] | | ]; try apply Cli; intros H; inversion H; subst; repeat split; auto.
@@ -80,8 +80,10 @@ Proof.
       * exists join, code_oracle. rewrite J. split; [now left|reflexivity].
       * apply Forall_app. split.
         -- apply Forall_forall. intros r Hr. apply in_flat_map in Hr as [m [Hm Hr]]. unfold client_reply in Hr.
-           destruct (m_kind m); cbn in Hr; try contradiction. destruct Hr as [<-|[]]. exists m, code_oracle. split; [now apply Cq|reflexivity].
-        -- apply Forall_forall. intros r Hr. apply in_map_iff in Hr as [m [<- Hm]]. exists m, code_oracle. split; [now apply Mq|reflexivity].
+           destruct (m_kind m); cbn in Hr; try contradiction. destruct (is_empty (m_id m)); cbn in Hr; [contradiction|].
+           destruct Hr as [<-|[]]. exists m, code_oracle. split; [now apply Cq|reflexivity].
+        -- apply Forall_forall. intros r Hr. apply in_flat_map in Hr as [m [Hm Hr]]. unfold meta_reply in Hr.
+           destruct (m_kind m) as [| | | |[|]| | |]; cbn in Hr; try contradiction; destruct Hr as [<-|[]]; exists m, code_oracle; (split; [now apply Mq|reflexivity]).
     + unfold release_fail. constructor.
       * exists join, e. rewrite J. split; [now left|reflexivity].
       * apply Forall_app. split.
@@ -110,11 +112,17 @@ Proof. vm_compute. reflexivity. Qed.
 Lemma join_lost : answered (run_held true ti_p2p_topic w_join [w_del] RelOk) w_join = false.
 Proof. vm_compute. reflexivity. Qed.
 
-Definition is_deltopic (m : cmsg) : bool := match m_kind m with KDelTopic => true | _ => false end.
+Definition is_deltopic (m : cmsg) : bool := match m_kind m with KDelTopic _ => true | _ => false end.
+Definition is_owner_del (m : cmsg) : bool := match m_kind m with KDelTopic true => true | _ => false end.
 
-(* the trigger: the load of a P2P topic succeeds after a {del what=topic} arrived for it *)
+(* the trigger: a load SUCCEEDS after a {del what=topic} arrived for the topic - any for a P2P topic (the topic is
+   deleted under the loader), the owner's for a group topic (replyDelTopic does not expect the owner) *)
 Definition lost_trigger (ti : tinfo) (ms : list cmsg) (rel : release) : bool :=
-  ti_p2p ti && existsb is_deltopic ms && match rel with RelOk => true | RelFail _ => false end.
+  ((ti_p2p ti && existsb is_deltopic ms) || existsb is_owner_del ms) && match rel with RelOk => true | RelFail _ => false end.
+
+(* the owner's {del what=topic} for a group topic that is being loaded is dropped without a reply *)
+Lemma owner_del_lost : answered (run_held true ti_grp_topic w_join [w_del_owner] RelOk) w_del_owner = false.
+Proof. vm_compute. reflexivity. Qed.
 
 Lemma answered_app_l rs1 rs2 m : answered rs1 m = true -> answered (rs1 ++ rs2) m = true.
 Proof. unfold answered. rewrite existsb_app. intros ->. reflexivity. Qed.
@@ -132,7 +140,7 @@ Lemma route_progress ti h m h' rs : route ti h m = (h', rs) -> is_note m = false
 Proof.
   intros R Nn Cap. unfold is_note in Nn. unfold route in R.
   assert (One : forall code, answered [own m code] m = true) by (intros code; eapply answered_in; now left).
-  destruct (m_kind m) as [|w valid|any ds|any tc| |known|unsub|] eqn:K; try discriminate.
+  destruct (m_kind m) as [|w valid|any ds|any tc|owner|known|unsub|] eqn:K; try discriminate.
   - destruct (ti_sys ti); [|inversion R; subst; left; apply One].
     unfold hub_route_cli in R. rewrite K in R. destruct (h_registered h).
     + apply Nat.ltb_lt in Cap. rewrite Cap in R. inversion R; subst. right; left. cbn. split; [apply in_or_app; right; now left|reflexivity].
@@ -161,7 +169,7 @@ Proof.
       + intros x Hx. apply in_or_app. now left.
       + rewrite app_length. cbn. lia.
     - destruct (m_kind m); intros H; inversion H; subst; repeat split; auto. }
-  destruct (m_kind m) as [|w valid|any ds|any tc| |known|unsub|] eqn:K.
+  destruct (m_kind m) as [|w valid|any ds|any tc|owner|known|unsub|] eqn:K.
   - destruct (ti_sys ti); [destruct (Cli _ _ R) as [A [B [C D]]]; repeat split; auto; rewrite D; auto|inversion R; subst; repeat split; auto].
   - destruct (negb valid); [inversion R; subst; repeat split; auto|].
     destruct w as [ | | | [ | ] | | ]; try (destruct (Cli _ _ R) as [A [B [C D]]]; repeat split; auto; rewrite D; auto); inversion R; subst; repeat split; auto.
@@ -200,26 +208,34 @@ Qed.
    (192 slots) is not overrun - every request other than a note, the {sub} included, is answered with its own id *)
 Lemma run_held_answered ti join ms rel m :
   lost_trigger ti ms rel = false -> (length ms <= client_cap)%nat ->
-  In m (join :: ms) -> is_note m = false -> answered (run_held true ti join ms rel) m = true.
+  In m (join :: ms) -> is_note m = false -> pub_has_id m = true -> answered (run_held true ti join ms rel) m = true.
 Proof.
-  intros Tr Cap Hin Nn. unfold run_held. destruct (route_all ti (init_held join) ms) as [h rs] eqn:R.
-  destruct (route_all_spec _ _ _ _ _ R) as [J _]. cbn in J.
+  intros Tr Cap Hin Nn Pid. unfold run_held. destruct (route_all ti (init_held join) ms) as [h rs] eqn:R.
+  destruct (route_all_spec _ _ _ _ _ R) as [J [_ [_ Mm]]]. cbn in J, Mm.
   destruct (route_all_progress _ _ _ _ _ R) as [P [_ [_ Kd]]]; [cbn; lia|]. cbn in Kd.
   assert (Del : rel = RelOk -> h_deleted h = false).
   { intros ->. destruct (h_deleted h) eqn:D; [|reflexivity]. destruct (Kd eq_refl) as [D1|[D1 D2]]; [discriminate|].
     unfold lost_trigger in Tr. rewrite D1, D2 in Tr. discriminate. }
-  assert (AtEnd : forall x, x = join \/ (In x (h_client h) /\ m_kind x = KPub) \/ In x (h_meta h) ->
+  assert (Own : rel = RelOk -> forall x, In x (h_meta h) -> is_owner_del x = false).
+  { intros -> x Hx. destruct (is_owner_del x) eqn:O; [|reflexivity]. exfalso.
+    assert (E : existsb is_owner_del ms = true).
+    { apply existsb_exists. exists x. split; [|exact O]. destruct (Mm x Hx) as [[]|Hc]. exact Hc. }
+    unfold lost_trigger in Tr. rewrite E, orb_true_r in Tr. discriminate. }
+  assert (AtEnd : forall x, pub_has_id x = true -> x = join \/ (In x (h_client h) /\ m_kind x = KPub) \/ In x (h_meta h) ->
             answered (match rel with RelOk => release_ok h | RelFail e => release_fail true e h end) x = true).
-  { intros x Hx. destruct rel as [|e].
+  { intros x Px Hx. destruct rel as [|e].
     - unfold release_ok. rewrite (Del eq_refl). destruct Hx as [->|[[Hc Hk]|Hm]].
       + eapply answered_in. left. rewrite J. reflexivity.
-      + eapply answered_in. right. apply in_or_app. left. apply in_flat_map. exists x. split; [exact Hc|]. unfold client_reply. rewrite Hk. now left.
-      + eapply answered_in. right. apply in_or_app. right. apply in_map_iff. exists x. split; [reflexivity|exact Hm].
+      + eapply answered_in. right. apply in_or_app. left. apply in_flat_map. exists x. split; [exact Hc|]. unfold client_reply. rewrite Hk.
+        unfold pub_has_id in Px. rewrite Hk in Px. destruct (is_empty (m_id x)); [discriminate Px|]. now left.
+      + eapply answered_in. right. apply in_or_app. right. apply in_flat_map. exists x. split; [exact Hm|].
+        pose proof (Own eq_refl x Hm) as O. unfold is_owner_del in O. unfold meta_reply.
+        destruct (m_kind x) as [| | | |[|]| | |]; try discriminate O; now left.
     - unfold release_fail. destruct Hx as [->|[[Hc Hk]|Hm]].
       + eapply answered_in. left. rewrite J. reflexivity.
       + eapply (answered_in _ x 503). right. apply in_or_app. left. apply in_map_iff. exists x. split; [reflexivity|exact Hc].
       + eapply answered_in. right. apply in_or_app. right. apply in_map_iff. exists x. split; [reflexivity|exact Hm]. }
   destruct Hin as [<-|Hin].
-  - apply answered_app_r. apply AtEnd. now left.
-  - destruct (P m Hin Nn) as [A|A]; [now apply answered_app_l|]. apply answered_app_r. apply AtEnd. now right.
+  - apply answered_app_r. apply AtEnd; [exact Pid|now left].
+  - destruct (P m Hin Nn) as [A|A]; [now apply answered_app_l|]. apply answered_app_r. apply AtEnd; [exact Pid|now right].
 Qed.
